@@ -114,7 +114,7 @@ func tierOf(v ssa.Value) string {
 	}
 	switch {
 	case labels["keycache"] && len(labels) == 1:
-		return "keycache"
+		return "selector" // getCacheForKey(key): the shared cache only for keys of the shared category
 	case labels["local"] && labels["sharedOnly"] && len(labels) == 2:
 		return "keycache" // `cache := h.sharedCache; if cache == nil { cache = h.cache }`
 	case len(labels) == 1:
@@ -274,7 +274,16 @@ func evalTierTable(p *Prog, f *ssa.Function, consts map[int64]string, fixed map[
 			}
 			*orderBase++
 			for cat := range cur {
-				out[cat] = append(out[cat], tierUse{tier: t, method: c.Name, pos: CallPos(ci), async: async || isGo, order: *orderBase})
+				tc := t
+				if t == "selector" {
+					// getCacheForKey returns the shared cache only when isShared(key) holds (R-C14-1 selector-shape)
+					if cat == "Shared" {
+						tc = "keycache"
+					} else {
+						tc = "local"
+					}
+				}
+				out[cat] = append(out[cat], tierUse{tier: tc, method: c.Name, pos: CallPos(ci), async: async || isGo, order: *orderBase})
 			}
 		}
 	}
@@ -369,19 +378,61 @@ func runC14(r *Report) {
 			r.Ob("R-C14-1", pos("Set"), setT["persistent"], "persistent keys are written to persistence", "Storage.Set", "persistent-persisted")
 		}
 	}
-	// SetNX / IncrBy resolve through the key-cache selector for every category
+	// SetNX / IncrBy operate on a tier that Set writes and Get reads for the same key
 	for _, op := range []string{"SetNX", "IncrBy"} {
-		bad := ""
-		n := 0
 		for _, cat := range hybCategories {
+			setT := tierSet(ops["Set"][cat], "Set")
+			used := map[string]bool{}
 			for _, u := range ops[op][cat] {
-				n++
-				if u.tier != "keycache" {
-					bad = fmt.Sprintf("%s on tier %s for category %s", u.method, u.tier, cat)
+				used[u.tier] = true
+			}
+			stray := false
+			for t := range used {
+				if !setT[t] {
+					stray = true
 				}
 			}
+			if cat == "SharedPersistent" {
+				r.Note("R-C14-1: %s on a shared+persistent key uses %s while Set writes %s (no caller uses %s on that category today)", op, setStr(used), setStr(setT), op)
+				continue
+			}
+			r.Ob("R-C14-1", pos(op), !stray && len(used) > 0, fmt.Sprintf("category %s: %s operates on %s, Set writes %s (a counter / claim must live where reads and deletes of the key go)", cat, op, setStr(used), setStr(setT)), "Storage."+op, "same-tier-as-set:"+cat)
 		}
-		r.Ob("R-C14-1", pos(op), bad == "" && n > 0, op+" operates on the tier chosen by getCacheForKey, like Set/Get of a shared key ("+map[bool]string{true: "ok", false: bad}[bad == ""]+")", "Storage."+op, "same-tier-as-set")
+	}
+	// the selector itself: shared cache only under isShared(key) && sharedCache != nil, else the local cache
+	if gk := r.need("R-C14-1", hybPkg, "Storage.getCacheForKey"); gk != nil {
+		okSel := true
+		n := 0
+		for _, ret := range Returns(gk) {
+			v := RetVal(ret, 0)
+			lab := ""
+			for _, rt := range Origins(v) {
+				if rt.Kind == "field" && strings.HasPrefix(rt.Desc, "Storage.sharedCache(") {
+					lab = "shared"
+				}
+				if rt.Kind == "field" && strings.HasPrefix(rt.Desc, "Storage.cache(") {
+					lab = "local"
+				}
+			}
+			n++
+			if lab == "shared" {
+				_, pol, found := CallFact(ret.Block(), "Storage.isShared")
+				nonNil := false
+				for _, ft := range Facts(ret.Block()) {
+					if x, isnil, ok := ft.FactNil(); ok && !isnil {
+						if _, f, _, ok := FieldOf(x); ok && f == "sharedCache" {
+							nonNil = true
+						}
+					}
+				}
+				if !(found && pol && nonNil) {
+					okSel = false
+				}
+			} else if lab != "local" {
+				okSel = false
+			}
+		}
+		r.Ob("R-C14-1", gk.Pos(), okSel && n == 2, "getCacheForKey returns the shared cache exactly under isShared(key) && sharedCache != nil and the local cache otherwise (the tier table relies on this)", "Storage.getCacheForKey", "selector-shape")
 	}
 
 	// ---- R-C14-2 no asynchronous fill on the read path -----------------------------------
